@@ -1,8 +1,135 @@
 """Machine operations for truncated measures (gaussian_toolbox/experimental/truncated_measure.py).
 Mixin for harness/machine.py:Machine; every method appends one protocol line (handled by the Lean
-driver extension) and executes the real library call, exactly like the methods in machine.py."""
+driver extension lean/GT/DriverTrunc.lean) and executes the real library call, exactly like the
+methods in machine.py.
+
+Limits are passed as None, a scalar (Python float, possibly +-inf) or an array of shape (R,1)
+(or (1,1), which the library broadcasts); infinite entries cross the protocol as the IEEE bit
+patterns of +-inf and become the explicit `Lim.negInf` / `Lim.posInf` of the model."""
 import numpy as np
 
 
+def _tm():
+    from gaussian_toolbox.experimental import truncated_measure as tm
+    return tm
+
+
+def dump_trunc(o):
+    """canonical dump of a truncated object (None if `o` is not one); used by machine.dump_obj"""
+    tm = _tm()
+    if not isinstance(o, tm.TruncatedGaussianMeasure):
+        return None
+    f = lambda a: np.asarray(a, dtype=np.float64)
+    cls = "pdf" if isinstance(o, tm.TruncatedGaussianPDF) else "measure"
+    d, m = o.density, o.measure
+    fields = {
+        "lower_limit": f(o.lower_limit), "upper_limit": f(o.upper_limit), "alpha": f(o.alpha), "beta": f(o.beta),
+        "constant": f(o.constant),
+        "m_Lambda": f(m.Lambda), "m_nu": f(m.nu), "m_ln_beta": f(m.ln_beta),
+        "d_Sigma": f(d.Sigma), "d_mu": f(d.mu), "d_Lambda": f(d.Lambda), "d_nu": f(d.nu), "d_ln_beta": f(d.ln_beta),
+        "d_lnZ": f(d.lnZ), "d_ln_det_Sigma": f(d.ln_det_Sigma),
+    }
+    return dict(type="trunc", head=(cls, int(o.R)), fields=fields)
+
+
+def _lim_tok(R, lim):
+    from machine import arr_tok
+    if lim is None:
+        return [0]
+    a = np.asarray(lim, dtype=np.float64)
+    if a.ndim == 0:
+        return [1] + arr_tok(a.reshape(1))
+    if a.shape not in ((R, 1), (1, 1)):
+        raise ValueError(f"harness: limit arrays must have shape (R,1) or (1,1), got {a.shape}")
+    return [2] + arr_tok(np.broadcast_to(a, (R, 1)))
+
+
+def _lim_kind(lim):
+    if lim is None:
+        return "none"
+    a = np.asarray(lim, dtype=np.float64)
+    kind = "scalar" if a.ndim == 0 else "array"
+    if np.all(np.isinf(a)):
+        return kind + ":inf"
+    if np.any(np.isinf(a)):
+        return kind + ":mixed"
+    return kind
+
+
 class TruncOps:
-    pass
+    # -- constructors ------------------------------------------------------------------------------
+    def trunc(self, src, lower=None, upper=None, pdf=False):
+        """TruncatedGaussianMeasure / TruncatedGaussianPDF(measure=<src>, lower_limit, upper_limit)"""
+        import jax.numpy as jnp
+        tm = _tm()
+        dst = self.new()
+        o = self.regs.get(src)
+        R = int(o.R) if o is not None else 1
+        toks = [int(pdf), src] + _lim_tok(R, lower) + _lim_tok(R, upper)
+        cls = tm.TruncatedGaussianPDF if pdf else tm.TruncatedGaussianMeasure
+        def j(a):
+            if a is None or isinstance(a, float):
+                return a
+            return jnp.asarray(np.asarray(a, dtype=np.float64))
+        return self._emit(dst, "trunc", toks,
+                          lambda: cls(measure=self.regs[src], lower_limit=j(lower), upper_limit=j(upper)),
+                          dict(pdf=bool(pdf), lower=_lim_kind(lower), upper=_lim_kind(upper)))
+
+    # -- evaluation --------------------------------------------------------------------------------
+    def trunc_call(self, t, x, element_wise=False):
+        dst = self.new()
+        return self._emit(dst, "trunc_call", [t, x, int(element_wise)],
+                          lambda: self.regs[t](self.regs[x], element_wise=element_wise),
+                          dict(element_wise=bool(element_wise)))
+
+    # -- integrals ---------------------------------------------------------------------------------
+    def trunc_integrate(self, t, key, k=None):
+        """key in {"1", "x", "x**2", "x**k"} (the last with the order k)"""
+        dst = self.new()
+        toks = [key, t] + ([int(k)] if key == "x**k" else [])
+        kw = dict(k=int(k)) if key == "x**k" else {}
+        return self._emit(dst, "trunc_integrate", toks, lambda: self.regs[t].integrate(key, **kw),
+                          dict(key=key, k=None if k is None else int(k)))
+
+    # -- other queries -----------------------------------------------------------------------------
+    def trunc_query(self, what, t, order=None):
+        """what in expectation_integral | expectation_x | variance | moment | moment_all | get_density |
+        get_mean | get_variance | get_std"""
+        dst = self.new()
+        def fn():
+            o = self.regs[t]
+            if what == "expectation_integral":
+                return o._expectation_integral()
+            if what == "expectation_x":
+                return o._expectation_x()
+            if what == "variance":
+                return o._get_variance()
+            if what == "moment":
+                return o._get_moment(int(order))
+            if what == "moment_all":
+                return o._get_moment(int(order), return_all=True)
+            if what in ("get_density", "get_mean", "get_variance", "get_std"):
+                return getattr(o, what)()
+            raise ValueError(what)
+        toks = [what, t] + ([int(order)] if what in ("moment", "moment_all") else [])
+        return self._emit(dst, "trunc_query", toks, fn, dict(what=what, order=None if order is None else int(order)))
+
+    def trunc_density(self, t):
+        return self.trunc_query("get_density", t)
+
+    # -- experimental/misc.py ----------------------------------------------------------------------
+    def misc(self, fn, x=None, k=None):
+        """fn in normal_pdf | normal_cdf (misc.py) | norm_cdf | norm_logcdf (the jax.scipy.stats.norm
+        primitives behind the model's Transc.normCdf / normLogCdf), entry-wise on the array register x;
+        fn == "binom": binom(k, arange(k+1)) as floats"""
+        import jax.numpy as jnp
+        from jax.scipy.stats import norm
+        from gaussian_toolbox.experimental import misc as gt_misc
+        dst = self.new()
+        if fn == "binom":
+            return self._emit(dst, "misc", ["binom", int(k)],
+                              lambda: jnp.asarray(gt_misc.binom(int(k), jnp.arange(0, int(k) + 1)), dtype=jnp.float64),
+                              dict(fn=fn, k=int(k)))
+        f = {"normal_pdf": gt_misc.normal_pdf, "normal_cdf": gt_misc.normal_cdf, "norm_cdf": norm.cdf,
+             "norm_logcdf": norm.logcdf}[fn]
+        return self._emit(dst, "misc", [fn, x], lambda: f(self.regs[x]), dict(fn=fn))
